@@ -149,6 +149,40 @@ let read_s chunks eof k =
     | None -> List.rev ((if eof then "Err" else "Blocked") :: acc) in
   String.concat " | " (go cs k [])
 
+let events_s (evs, left) =
+  let buf = Buffer.create 256 in
+  let last_r = ref false in
+  let sep () = if Buffer.length buf > 0 then Buffer.add_char buf ' ' in
+  List.iter (fun e ->
+    match e with
+    | EvR b -> if !last_r then Buffer.add_string buf (if b = [] then "" else hex b)
+               else if b <> [] then begin sep (); Buffer.add_string buf ("R:" ^ hex b); last_r := true end
+    | EvW b -> sep (); Buffer.add_string buf ("W:" ^ hex b); last_r := false
+    | EvY (i, v) -> sep (); Buffer.add_string buf ("Y:" ^ string_of_n i ^ show_value v); last_r := false
+    | EvErr -> sep (); Buffer.add_string buf "Y:Err"; last_r := false) evs;
+  Buffer.contents buf ^ " left=" ^ string_of_int (List.length left)
+
+let seq_s name input script =
+  match run_seq_named (coq_string name) input script with
+  | None -> "NoSuchSequenceOrBadInput"
+  | Some r -> events_s r
+
+(* upload: files given as id:hexcontent,... ; the announcement is printed canonically *)
+let upload_s files block password script =
+  let fl = if files = "-" then [] else
+    List.map (fun s -> match String.split_on_char ':' s with
+                       | [i; c] -> (n_of_string i, unhex c) | _ -> failwith "file") (String.split_on_char ',' files) in
+  match run_upload_named fl (n_of_string block) (n_of_string password) script with
+  | None -> "ModelError"
+  | Some (evs, left) ->
+      let man = "W:manifest pw=" ^ password ^ " [" ^
+        String.concat ";" (List.map (fun (i, c) -> "(" ^ string_of_n i ^ "," ^ string_of_int (List.length c) ^ ")")
+                             (List.sort compare (List.map (fun (i, c) -> (i, c)) fl)
+                              |> List.sort (fun (a, _) (b, _) -> compare (int_of_n a) (int_of_n b)))) ^ "]" in
+      let evs' = match evs with EvW _ :: r -> r | l -> l in
+      let body = events_s (evs', left) in
+      (match evs with EvW _ :: _ -> man ^ (if body = "" then "" else " " ^ body) | _ -> body)
+
 let wr_s len =
   let w =
     if len = 0 then (match run_enc (coq_string "zvt::packets::Ack") (VRec []) with Some (Ok b) -> b | _ -> failwith "ack")
@@ -182,6 +216,8 @@ let () =
               let bs = List.init k (fun j -> n_of_int ((i lsr (8 * (k - 1 - j))) land 255)) in
               emit (len_de_s f.(1) (bs @ suffix))
             done
+        | "seq" -> emit (seq_s f.(1) (unhex f.(2)) (unhex f.(3)))
+        | "uploadm" -> emit (upload_s f.(1) f.(2) f.(3) (unhex f.(4)))
         | "wr_range" -> for k = int_of_string f.(1) to int_of_string f.(2) do emit (wr_s k) done
         | "read" -> emit (read_s f.(1) (f.(2) = "eof") (int_of_string f.(3)))
         | "dec_all" | "enum_all" ->
